@@ -17,7 +17,6 @@ import (
 	"io"
 	"iter"
 	"os"
-	"path"
 	"path/filepath"
 	"sort"
 	"strings"
@@ -121,7 +120,7 @@ func listNames(dir string) []string {
 	return out
 }
 
-// entries of an operator's `checkpoints` file as Gallina list ckentry
+// entries of an operator's `checkpoints` file as Gallina list ckentry (file URIs)
 func ckEntries(file string) (string, error) {
 	data, err := os.ReadFile(file)
 	if err != nil {
@@ -133,22 +132,31 @@ func ckEntries(file string) (string, error) {
 	}
 	var items []string
 	for _, ck := range f.Checkpoints {
-		var names []string
+		var ns []string
 		for _, w := range ck.WALs {
-			names = append(names, path.Base(w.URI))
+			ns = append(ns, hx.CoqBytes([]byte(w.URI)))
 		}
 		for _, lvl := range ck.Levels {
 			for _, t := range lvl {
-				names = append(names, path.Base(t.URI))
+				ns = append(ns, hx.CoqBytes([]byte(t.URI)))
 			}
-		}
-		ns := make([]string, len(names))
-		for i, n := range names {
-			ns[i] = hx.CoqBytes([]byte(n))
 		}
 		items = append(items, fmt.Sprintf("(%d, %s)", ck.ID, hx.CoqList(ns, "bytes")))
 	}
 	return hx.CoqList(items, "ckentry"), nil
+}
+
+// original URIs of every file below <savepoint dir>/dkv (the artifact stores a file under its original absolute path)
+func artifactURIs(spDir string) []string {
+	root := filepath.Join(spDir, "dkv")
+	var out []string
+	filepath.WalkDir(root, func(p string, d os.DirEntry, err error) error {
+		if err == nil && !d.IsDir() {
+			out = append(out, strings.TrimPrefix(p, root))
+		}
+		return nil
+	})
+	return out
 }
 
 func sresCoq(id uint64, created bool, err error) string {
@@ -237,8 +245,9 @@ func (cl *cluster) savepointRestart(o op, tags map[string]bool, tableIDs map[str
 		}
 		if o.Retain {
 			for _, a := range cl.ops {
+				// the job ignores the result of this call as well (jobs/job.go); a failure is only tagged
 				if err := a.UpdateRetainedCheckpoints(nil, []uint64{id}); err != nil {
-					return "", nil, false, fmt.Errorf("UpdateRetainedCheckpoints: %v", err)
+					tags["retain-update-error"] = true
 				}
 			}
 			tags["retain-before-copy"] = true
@@ -252,7 +261,7 @@ func (cl *cluster) savepointRestart(o op, tags map[string]bool, tableIDs map[str
 	select {
 	case <-js.events:
 	case e := <-js.errs:
-		*terms = append(*terms, fmt.Sprintf("SSave (SpFiles (@nil op_obs) false)"))
+		*terms = append(*terms, "SSave (SpFiles (@nil op_obs) (@nil bytes) (@nil bytes) false)")
 		tags["SAVEPOINT-FAILED"] = true
 		return "", map[string]any{"savepoint_error": e.Error()}, false, errStop
 	case <-time.After(spWait):
@@ -264,21 +273,16 @@ func (cl *cluster) savepointRestart(o op, tags map[string]bool, tableIDs map[str
 	}
 	spDir := filepath.Dir(spURI)
 	// --- observations on the artifact
-	type perOp struct{ dir, entries, artifact string }
-	var pos []perOp
-	withFiles := false
+	var obsItems []string
 	for _, a := range acks {
-		dir := filepath.Dir(a.DkvFileUri)
 		ents, err := ckEntries(a.DkvFileUri)
 		if err != nil {
 			return "", nil, false, err
 		}
-		art := listNames(filepath.Join(spDir, "dkv", dir))
-		if len(art) > 1 {
-			withFiles = true
-		}
-		pos = append(pos, perOp{dir, ents, coqNames(art)})
+		obsItems = append(obsItems, fmt.Sprintf("(%d, %s, %s)", id, hx.CoqBytes([]byte(a.DkvFileUri)), ents))
 	}
+	artifact := artifactURIs(spDir)
+	withFiles := len(artifact) > len(acks)
 	// --- stop everything, wipe the working storage, start a new job from the savepoint URI
 	cl.stopAll()
 	cl.quiesce()
@@ -290,9 +294,11 @@ func (cl *cluster) savepointRestart(o op, tags map[string]bool, tableIDs map[str
 	if err != nil {
 		restored, loadErr = false, err.Error()
 	}
-	var obsItems []string
-	for _, p := range pos {
-		obsItems = append(obsItems, fmt.Sprintf("(%d, %s, %s, %s)", id, p.entries, p.artifact, coqNames(listNames(p.dir))))
+	var after []string
+	for _, u := range artifact {
+		if _, err := os.Stat(u); err == nil {
+			after = append(after, u)
+		}
 	}
 	var ckpt *snapshotpb.JobCheckpoint
 	if restored {
@@ -313,7 +319,7 @@ func (cl *cluster) savepointRestart(o op, tags map[string]bool, tableIDs map[str
 			restored, loadErr = false, err.Error()
 		}
 	}
-	*terms = append(*terms, fmt.Sprintf("SSave (SpFiles %s %s)", hx.CoqList(obsItems, "op_obs"), hx.CoqBool(restored)))
+	*terms = append(*terms, fmt.Sprintf("SSave (SpFiles %s %s %s %s)", hx.CoqList(obsItems, "op_obs"), coqNames(artifact), coqNames(after), hx.CoqBool(restored)))
 	if !restored {
 		tags["RESTORE-FAILED"] = true
 		return "", map[string]any{"restore_error": loadErr}, false, errStop
